@@ -2,6 +2,7 @@
 package main
 
 import (
+	"time"
 	"fmt"
 	"os"
 	"syscall"
@@ -196,19 +197,29 @@ func main() {
 					var rerr error
 					seq := -1
 					okPayload := false
-					switch m["type"].(string) {
-					case "A":
-						var v MsgA
-						rm, rerr = fb.RecvMsg(&v)
-						seq, okPayload = v.Seq, v.Text == string(pattern(size, i))
-					case "B":
-						var v MsgB
-						rm, rerr = fb.RecvMsg(&v)
-						seq, okPayload = v.Seq, string(v.Data) == string(pattern(size, i))
-					default:
-						var v MsgC
-						rm, rerr = fb.RecvMsg(&v)
-						seq, okPayload = v.Seq, len(v.Names) == 1 && v.Names[0] == string(pattern(size, i))
+					returned := hx.Guard(5*time.Second, func() {
+						switch m["type"].(string) {
+						case "A":
+							var v MsgA
+							rm, rerr = fb.RecvMsg(&v)
+							seq, okPayload = v.Seq, v.Text == string(pattern(size, i))
+						case "B":
+							var v MsgB
+							rm, rerr = fb.RecvMsg(&v)
+							seq, okPayload = v.Seq, string(v.Data) == string(pattern(size, i))
+						default:
+							var v MsgC
+							rm, rerr = fb.RecvMsg(&v)
+							seq, okPayload = v.Seq, len(v.Names) == 1 && v.Names[0] == string(pattern(size, i))
+						}
+					})
+					if !returned {
+						// the message was accepted by the sender and never arrives: nothing more can be learnt from this connection
+						o["recv_hang"] = true
+						obs = append(obs, o)
+						a.Close()
+						b.Close()
+						return map[string]any{"obs": obs, "fd_delta": 0, "abandoned": true}
 					}
 					o["recv_err"] = errs(rerr)
 					o["seq"] = seq
